@@ -300,6 +300,15 @@ def sequence_unit(kind="calls"):
                 L.obj.cost(A)
                 L.obj.jac(B)
                 expect(L.obj.cost(A), A, " [cost(A) after cost(A), jac(B)]")
+                # and the other way round: the gradient at A after a cost at B integrates with A
+                L.obj.cost(B)
+                L.obj.sensitivity(A)
+                if sym_mode:
+                    integ = book.integrators[-1]
+                    for kind_, ig, tp_, yp, val in book.probes:
+                        if ig is integ and kind_ == "f":
+                            c.prove(all_close(np.asarray(val, dtype=object)[:3], sir3_rhs(yp[:3], [A[0], A[1]]), c),
+                                    "sensitivity(A) after cost(B) integrates with the parameters A")
             elif kind == "shared_model":
                 from pygom.loss import ode_loss
                 y2 = arr(c, [c.real("z%d" % i, lo=0.5, hi=30) for i in range(2)])
